@@ -105,18 +105,22 @@ func (pm *PeerManager) GetProcess(
 func (pm *PeerManager) getOrCreate(p peer.ID) *peerProcessInstance {
 	pqi, ok := pm.peerProcesses[p]
 	if !ok {
-		pq := pm.createPeerProcess(pm.ctx, p, pm.onQueueShutdown)
-		if pprocess, ok := pq.(PeerProcess); ok {
+		pqi = &peerProcessInstance{}
+		instance := pqi
+		pqi.process = pm.createPeerProcess(pm.ctx, p, func(p peer.ID) { pm.onQueueShutdown(p, instance) })
+		if pprocess, ok := pqi.process.(PeerProcess); ok {
 			pprocess.Startup()
 		}
-		pqi = &peerProcessInstance{0, pq}
 		pm.peerProcesses[p] = pqi
 	}
 	return pqi
 }
 
-func (pm *PeerManager) onQueueShutdown(p peer.ID) {
+func (pm *PeerManager) onQueueShutdown(p peer.ID, instance *peerProcessInstance) {
 	pm.peerProcessesLk.Lock()
 	defer pm.peerProcessesLk.Unlock()
-	delete(pm.peerProcesses, p)
+	// only remove the entry if it still refers to the process that shut down
+	if pm.peerProcesses[p] == instance {
+		delete(pm.peerProcesses, p)
+	}
 }
